@@ -374,7 +374,7 @@ def main():
         for i, mode in enumerate(("fork", "nofork")):
             o = run_member(dict(common, idx=f"b{i}", kind="pipe", tokens=3, threads=None,
                                 mode=mode, outcome="success"))
-            if o["machinery"] or o["rc"] != 0 or sorted(o["final"]) != sorted(o["initial"]):
+            if o["machinery"] or o["rc"] != 0:
                 chk.machinery(f"baseline {mode} link failed: {o}")
             points_by_mode[mode] = [p for p in o["points"] if p != "exit:Activate thread pool"]
             if "enter:Layout" not in points_by_mode[mode]:
